@@ -58,6 +58,27 @@ def run(R):
             if r.tmp_left:
                 R.oracle_fail(f"temporary file left in the temp directory: {r.tmp_left[:2]}", data)
     R.dist["C16"] = dist
+    import ties
+    sub = cs[:150 if quick else 2000]
+    ties.t8(R, "T8-driver", sub)
+    outs = ties.t9(R, "T9-trace", sub[:80 if quick else 800])
+    for c, r, m, ops in outs:
+        al, dirs = allowed_paths(c, r)
+        for o in ops:
+            if o.startswith("tmp-"):
+                continue
+            paths = [bytes.fromhex(t[1:]) for t in o.split(":")[1:] if t.startswith("x")]
+            if o.startswith("write:"):
+                paths = paths[:1]
+            if o.startswith("symlink:"):
+                paths = paths[1:]
+            for q in paths:
+                if q not in al and q not in dirs:
+                    R.oracle_fail(f"system call on a path outside the intended set: {o[:60]}", rich.describe(c, r)); break
+        # temporaries: created exclusively and unlinked before anything else happens
+        for i, o in enumerate(ops):
+            if o == "tmp-create" and (i + 1 >= len(ops) or ops[i + 1] != "tmp-unlink"):
+                R.oracle_fail("a temporary file is not unlinked right after its creation", rich.describe(c, r)); break
 
 
 RULE = ("rich scenarios with bystander files whose names are near the targets' (same basename in other directories, same prefix, pre-existing .orig/.rej, "
